@@ -108,8 +108,43 @@ func TestVerifReplayC01(t *testing.T) {
 				}
 			}
 		}
+		// the style and script elements the runtime itself opens (CSS classes, script templates) under a CSP nonce
+		{
+			nctx := WithNonce(ctx, v)
+			var b bytes.Buffer
+			cls := ComponentCSSClass{ID: "c_1", Class: SafeCSS(".c_1{color:red;}")}
+			sc := ComponentScript{Name: "__templ_s_1", Function: "function __templ_s_1(){}", Call: "__templ_s_1()", CallInline: "__templ_s_1()"}
+			if RenderCSSItems(nctx, &b, cls) == nil && RenderScriptItems(nctx, &b, sc) == nil {
+				z := html.NewTokenizer(strings.NewReader(b.String()))
+				var shape []string
+				bad := ""
+				for {
+					tt := z.Next()
+					if tt == html.ErrorToken {
+						break
+					}
+					tok := z.Token()
+					shape = append(shape, tt.String()+":"+tok.Data)
+					if tt == html.StartTagToken {
+						for _, a := range tok.Attr {
+							switch {
+							case tok.Data == "style" && a.Key == "type" && a.Val == "text/css":
+							case a.Key == "nonce" && strings.ToValidUTF8(a.Val, "�") == want:
+							default:
+								bad = fmt.Sprintf("attribute %s=%q on <%s>", a.Key, a.Val, tok.Data)
+							}
+						}
+					}
+				}
+				okShape := len(shape) == 6 && shape[0] == "StartTag:style" && strings.HasPrefix(shape[1], "Text:") && shape[2] == "EndTag:style" && shape[3] == "StartTag:script" && strings.HasPrefix(shape[4], "Text:") && shape[5] == "EndTag:script"
+				if !okShape || bad != "" {
+					fmt.Printf("REPLAY-CONFIRMED with the CSP nonce %q, a CSS class and a script template render as %q, which an HTML5 tokenizer reads as %v %s\n", v, b.String(), shape, bad)
+					return
+				}
+			}
+		}
 	}
-	fmt.Printf("REPLAY-NOT-REPRODUCED bounded search: %d strings through spread attributes (3 forms), element text and the JSON script element, read back with the x/net/html tokenizer\n", len(vals))
+	fmt.Printf("REPLAY-NOT-REPRODUCED bounded search: %d strings through spread attributes (3 forms), element text, the JSON script element and the nonce of runtime style / script elements, read back with the x/net/html tokenizer\n", len(vals))
 }
 `
 
